@@ -13,6 +13,25 @@ pub const F32_SPECIAL: [u32; 22] = [
     0xff7f_ffff, 0x3400_0000, 0x3f7f_ffff, 0x3f80_0001, 0x3e20_0000, 0x4b00_0001,
 ];
 
+/// A Content holding the URI `s`, built through the library's construction paths in turn (from_uri, From<&str>,
+/// From<String>, assignment through value_mut): the inputs must not depend on what one constructor does with a value.
+pub fn content_uri(s: &str) -> Content {
+    static TURN: std::sync::atomic::AtomicUsize = std::sync::atomic::AtomicUsize::new(0);
+    match TURN.fetch_add(1, std::sync::atomic::Ordering::Relaxed) % 4 {
+        0 => Content::from_uri(s),
+        1 => Content::from(s),
+        2 => Content::from(s.to_string()),
+        _ => content_direct(s),
+    }
+}
+
+/// ... always by assignment (no constructor between the generator and the value)
+pub fn content_direct(s: &str) -> Content {
+    let mut c = Content::none();
+    *c.value_mut() = ContentType::Uri(s.to_string());
+    c
+}
+
 pub fn f32_any(rng: &mut StdRng) -> f32 {
     match rng.gen_range(0..10) {
         0..=2 => f32::from_bits(F32_SPECIAL[rng.gen_range(0..F32_SPECIAL.len())]),
@@ -371,7 +390,7 @@ pub fn value_of(ty: VariantType, rng: &mut StdRng, refs: &[Ref], xml_safe: bool)
             0 => Content::none(),
             // rbx_xml cannot write object references (recorded finding); XML cases use URIs only
             1 if !xml_safe => Content::from_referent(pick_ref(rng)),
-            _ => Content::from_uri(["rbxassetid://77", "", "rbxasset://a b.png"][rng.gen_range(0..3)]),
+            _ => content_uri(["rbxassetid://77", "", "rbxasset://a b.png"][rng.gen_range(0..3)]),
         }),
         _ => return None,
     })
@@ -398,7 +417,7 @@ pub fn boundary_values(ty: VariantType, xml_safe: bool, k: usize) -> Vec<Variant
             [Vec::new(), vec![0u8], vec![0xff, 0x00, 0x7f], (0..=255u8).collect::<Vec<u8>>(), b"shared-one".to_vec()].into_iter().map(|b| Variant::SharedString(SharedString::new(b))),
         ),
         VariantType::Content => out.extend(
-            [Content::none(), Content::from_uri(""), Content::from_uri("rbxassetid://77"), Content::from_uri("rbxasset://a b.png"), Content::from_uri("http://x/?a=1&b=<2>"), Content::from_uri(" ")]
+            [Content::none(), content_uri(""), content_direct(""), content_uri("rbxassetid://77"), content_uri("rbxasset://a b.png"), content_direct("http://x/?a=1&b=<2>"), content_uri(" ")]
                 .into_iter()
                 .map(Variant::Content),
         ),
